@@ -16,6 +16,15 @@ class FakeFS(object):
         self.root = os.path.join(root, "dbfs")
         os.makedirs(self.root, exist_ok=True)
         self.log = []
+        self.nops = 0
+        self.fail_at = None  # ordinal of the call that fails once with a transient error (fault injection)
+
+    def _tick(self, what):
+        n = self.nops
+        self.nops += 1
+        if self.fail_at is not None and n == self.fail_at:
+            self.fail_at = None
+            raise FakeDbfsError("java.io.IOException: transient failure injected before %s" % (what,))
 
     def _resolve(self, uri):
         u = str(uri)
@@ -37,6 +46,7 @@ class FakeFS(object):
 
     def head(self, path, maxbytes=65536):
         self.log.append(("head", str(path)))
+        self._tick(self.log[-1])
         p = self._resolve(path)
         if not os.path.isfile(p):
             raise FakeDbfsError("java.io.FileNotFoundException: %s" % path)
@@ -45,6 +55,7 @@ class FakeFS(object):
 
     def put(self, path, contents, overwrite=False):
         self.log.append(("put", str(path), len(contents)))
+        self._tick(self.log[-1])
         p = self._resolve(path)
         if os.path.exists(p) and not overwrite:
             raise FakeDbfsError("java.io.IOException: %s already exists" % path)
@@ -57,6 +68,7 @@ class FakeFS(object):
 
     def cp(self, src, dst, recurse=False):
         self.log.append(("cp", str(src), str(dst), recurse))
+        self._tick(self.log[-1])
         s, d = self._resolve(src), self._resolve(dst)
         if not os.path.exists(s):
             raise FakeDbfsError("java.io.FileNotFoundException: %s" % src)
@@ -75,6 +87,7 @@ class FakeFS(object):
 
     def rm(self, path, recurse=False):
         self.log.append(("rm", str(path), recurse))
+        self._tick(self.log[-1])
         p = self._resolve(path)
         if not os.path.exists(p):
             return False
@@ -88,11 +101,13 @@ class FakeFS(object):
 
     def mkdirs(self, path):
         self.log.append(("mkdirs", str(path)))
+        self._tick(self.log[-1])
         os.makedirs(self._resolve(path), exist_ok=True)
         return True
 
     def ls(self, path):
         self.log.append(("ls", str(path)))
+        self._tick(self.log[-1])
         return sorted(os.listdir(self._resolve(path)))
 
 
